@@ -346,7 +346,9 @@ fn write_evidence(env: &Env, id: &str, tier: &str, seed: u64, out: &Outcome, wal
         "wall_s": wall,
         "violations": nviol,
     });
-    let dir = env.verif.join("evidence");
+    // evidence/ describes /repo itself; a run against another tree (REPO_ROOT, e.g. a scratch worktree with a seeded
+    // change) leaves it alone
+    let dir = if env.repo == std::path::Path::new("/repo") { env.verif.join("evidence") } else { env.verif.join("work").join("evidence-other-tree") };
     std::fs::create_dir_all(&dir).unwrap();
     std::fs::write(dir.join(format!("{}.json", id)), serde_json::to_string_pretty(&ev).unwrap()).unwrap();
 }
